@@ -5,13 +5,16 @@
    still holds the old version, and dumps the sequences. *)
 EXTENDS Naturals, Sequences, TLC, Json
 CONSTANTS W, MaxOps
-Ops == {"get", "getslow", "reload", "post", "pair"}
+\* slowabort: like getslow (a reader on another worker attaches while the body arrives), but the origin drops the
+\* connection in the middle of the body: that version is never complete, nobody may present it as complete
+Ops == {"get", "getslow", "reload", "post", "pair", "slowabort"}
 VARIABLES shared, nextv, lastInval, hist
 vars == <<shared, nextv, lastInval, hist>>
 Init == shared = 0 /\ nextv = 1 /\ lastInval = 0 /\ hist = <<>>
 Do(op, w) ==
   /\ Len(hist) < MaxOps /\ hist' = Append(hist, <<op, w>>)
   /\ CASE op \in {"get", "getslow", "pair"} -> IF shared = 0 THEN shared' = nextv /\ nextv' = nextv + 1 /\ UNCHANGED lastInval ELSE UNCHANGED <<shared, nextv, lastInval>>
+       [] op = "slowabort" -> IF shared = 0 THEN nextv' = nextv + 1 /\ UNCHANGED <<shared, lastInval>> ELSE UNCHANGED <<shared, nextv, lastInval>>
        [] op = "reload" -> shared' = nextv /\ nextv' = nextv + 1 /\ UNCHANGED lastInval
        [] op = "post" -> shared' = 0 /\ lastInval' = nextv /\ nextv' = nextv + 1
 Next == \E op \in Ops, w \in 1..W : Do(op, w)
